@@ -41,8 +41,13 @@ OK07(e) ==
 
 \* ---- C06
 BlockIsAsync(blk, asy) == IF asy.k = "err" /\ asy.eof THEN blk.k = "incomplete" ELSE SameRes(blk, asy)
+PollVsLenient(e, pr) ==
+    /\ (pr.k = "ok" => OkPkt(e.block, pr.v) /\ OkPkt(e.async, pr.v))
+    /\ (pr.k = "err" /\ pr.e # "InvalidRemainingLength" => SameRes(e.block, pr) /\ SameRes(e.async, pr))
 OK06(e) ==
     /\ BlockIsAsync(e.block, e.async)
+    /\ BlockIsAsync(e.block, e.async_1)                   \* ... whatever the chunking of the async reader
+    /\ (StartsWithCompleteFrame(e.fam, e.bytes) => PollVsLenient(e, e.poll_sched))   \* ... and under a schedule with Pendings / drops
     /\ SameRes(e.hdr_block, e.hdr_async)
     /\ StartsWithCompleteFrame(e.fam, e.bytes) =>
           /\ (e.poll.k = "ok" => OkPkt(e.block, e.poll.v) /\ OkPkt(e.async, e.poll.v))
@@ -50,7 +55,8 @@ OK06(e) ==
                  SameRes(e.block, e.poll) /\ SameRes(e.async, e.poll))
 
 \* ---- C03 (totality part)
-OK03(e) == Outcome(e.block) /\ Outcome(e.async) /\ Outcome(e.poll) /\ Outcome(e.hdr_block) /\ Outcome(e.hdr_async)
+OK03(e) == /\ Outcome(e.block) /\ Outcome(e.async) /\ Outcome(e.poll) /\ Outcome(e.hdr_block) /\ Outcome(e.hdr_async)
+           /\ Outcome(e.poll_sched) /\ Outcome(e.async_1)
 Kinds == {"ok", "incomplete", "eof", "err"}
 OK03Short(e) == \A i \in 1..Len(e.rows) : \A j \in 2..6 : e.rows[i][j] \in Kinds
 
